@@ -303,6 +303,14 @@ class CallMixin:
         v.items.append(a[0])
       elif isinstance(v, VMList):
         s = v.seq
+        ml = getattr(v, 'maxlen', None)
+        if ml is not None and not (z3.is_int_value(z3.simplify(ml)) and z3.simplify(ml).as_long() < 0):
+          if self.branch(z3.And(ml >= 0, s.n >= ml)):
+            # a full bounded deque: the oldest element is silently discarded (maxlen 0: nothing is kept)
+            if self.branch(ml == 0):
+              return NONE
+            j = z3.Int(self.path.fresh_name('j'))
+            s = VSeq(z3.Lambda([j], z3.Select(s.arr, j + 1)), s.n - 1, s.kind)
         v.seq = VSeq(z3.Store(s.arr, s.n, self.unwrap(s.kind, a[0])), s.n + 1, s.kind)
         if getattr(v, 'cat', None) is not None:
           v.cat = self.cat_append(v.cat, a[0])
@@ -377,6 +385,11 @@ class CallMixin:
       m.stamp = z3.Store(m.stamp, key, m.clock)
       m.clock = m.clock + 1
       return NONE
+    if m.is_counter and name == 'items' and not a:
+      return VCounterView(m)
+    if m.is_counter and name == 'most_common':
+      n = a[0] if a else k.get('n')
+      return VCounterView(m, None if n is None or isinstance(n, VNoneT) else self.to_int(n))
     if name == 'update' and m.is_counter and len(a) == 1 and isinstance(a[0], VMap) and a[0].is_counter and a[0].ksort == m.ksort:
       # collections.Counter.update(other counter): counts are ADDED key by key (a missing key counts 0)
       o = a[0]
